@@ -64,7 +64,7 @@ Lemma span_spec (p : char -> bool) : forall s,
   s = fst (span p s) ++ snd (span p s) /\ forallb p (fst (span p s)) = true /\
   match snd (span p s) with [] => True | c :: _ => p c = false end.
 Proof.
-  induction s as [|c s (IH1 & IH2 & IH3)]; cbn [span]; [auto|].
+  induction s as [|c s (IH1 & IH2 & IH3)]; cbn [span]; [cbn; auto|].
   destruct (p c) eqn:Hp.
   - destruct (span p s) as [a b]. cbn [fst snd app forallb] in *. rewrite Hp, IH2. repeat split; [now f_equal|assumption].
   - cbn [fst snd app forallb]. auto.
@@ -132,7 +132,7 @@ Lemma strip_char_spec c s :
 Proof.
   destruct s as [|x t]; cbn [strip_char]; [right; auto|].
   destruct (N.eqb_spec x c) as [->|Hx]; cbn [fst snd]; [left; auto|right].
-  repeat split. now apply N.eqb_neq.
+  auto.
 Qed.
 
 (** the part of [xp_parse_number] after the leading white space *)
@@ -176,7 +176,7 @@ Proof.
   change rs_is_ascii_digit with is_digit. rewrite H1, H2. cbn [orb andb]. now rewrite andb_false_r.
 Qed.
 
-Lemma count_dots_digits a : forallb is_digit a = true -> filter (fun c => c =? 46) a = [].
+Lemma count_dots_digits (a : list N) : forallb is_digit a = true -> @filter N (fun c : N => N.eqb c 46) a = [].
 Proof.
   induction a as [|c a IH]; cbn [forallb filter]; [reflexivity|].
   rewrite andb_true_iff. intros [H1 H2]. rewrite (digit_not_dot c H1). auto.
@@ -186,7 +186,7 @@ Lemma number_ok_two_dots ip fp r :
   forallb is_digit ip = true -> forallb is_digit fp = true ->
   number_ok (ip ++ 46 :: fp ++ 46 :: r) = false.
 Proof.
-  intros H1 H2. unfold number_ok.
+  intros H1 H2. unfold number_ok. change char with N.
   rewrite !filter_app. cbn [filter]. rewrite N.eqb_refl. rewrite !filter_app. cbn [filter]. rewrite N.eqb_refl.
   rewrite (count_dots_digits ip H1), (count_dots_digits fp H2). cbn [app List.length].
   destruct (filter _ r); cbn [List.length Nat.leb]; now rewrite andb_false_r.
@@ -208,7 +208,7 @@ Qed.
 (** [number_ok] on the two shapes without a stray character *)
 Lemma number_ok_digits ip : forallb is_digit ip = true -> number_ok ip = nonempty ip.
 Proof.
-  intros H. unfold number_ok. rewrite (forallb_digit_or_dot _ H), (existsb_digit _ H), (count_dots_digits _ H).
+  intros H. unfold number_ok. rewrite (forallb_digit_or_dot _ H), (existsb_digit _ H). change char with N. rewrite (count_dots_digits _ H).
   cbn [List.length Nat.leb]. now rewrite andb_true_r.
 Qed.
 
@@ -218,7 +218,7 @@ Proof.
   intros H1 H2. unfold number_ok. rewrite forallb_app, existsb_app, filter_app.
   cbn [forallb existsb filter]. rewrite N.eqb_refl.
   rewrite (forallb_digit_or_dot _ H1), (forallb_digit_or_dot _ H2), (existsb_digit _ H1), (existsb_digit _ H2).
-  rewrite (count_dots_digits _ H1), (count_dots_digits _ H2). cbn [app List.length Nat.leb].
+  change char with N. rewrite (count_dots_digits _ H1), (count_dots_digits _ H2). cbn [app List.length Nat.leb].
   rewrite orb_true_r. cbn [andb]. rewrite andb_true_r.
   replace (rs_is_ascii_digit 46) with false by reflexivity. reflexivity.
 Qed.
